@@ -83,12 +83,12 @@ try:
         cenv = dict(os.environ, VERIF_REPO=wt, VERIF_EVIDENCE="/tmp/seed-evidence", VERIF_REPLAYS="/tmp/seed-replays")
         for c in (a.checks or a.id).split(","):
             t0 = time.time()
-            p = subprocess.run(["/verif/check", c, a.tier], capture_output=True, text=True, env=cenv)
+            p = subprocess.run([os.environ.get("SWEEP_CHECK", "/verif/check"), c, a.tier], capture_output=True, text=True, env=cenv)
             sigs = [l[4:].strip() for l in p.stdout.splitlines() if l.startswith("--- ")]
             results[c] = {"exit": p.returncode, "signatures": sigs[:6], "wall_s": round(time.time() - t0, 1)}
             print("check", c, a.tier, "-> exit", p.returncode, sigs[:4])
 finally:
-    subprocess.run("git -C /repo worktree remove --force %s; rm -rf %s /verif/.build/*-_tmp_sw*" % (wt, wt), shell=True)
+    subprocess.run("git -C /repo worktree remove --force %s; rm -rf %s %s/.build/*-_tmp_sw-*" % (wt, wt, os.path.dirname(os.environ.get("SWEEP_CHECK", "/verif/check"))), shell=True)
 meta["confirmed"] = ok
 if not ok:
     print("NOT CONFIRMED"); sys.exit(1)
